@@ -195,14 +195,27 @@ func refreshSession(c *hx.Ctx, k int, r *rand.Rand, dur time.Duration) string {
 	}
 	pacing := r.IntN(3) // 0 bursts, 1 small gaps, 2 mostly idle
 	addMid := r.IntN(2) == 0
+	// trickle: the application keeps announcing NEW templates more often than the refresh interval ("every
+	// template sent so far is retransmitted each refresh interval" - also while others are being announced)
+	trickle := r.IntN(4) == 0
+	nextTrickle := time.Duration(300+r.IntN(400)) * time.Millisecond
 	added := false
+	late := 0 // templates announced after the start
 	counter := uint32(0)
 	for time.Since(start) < dur {
-		if addMid && !added && time.Since(start) > dur/3 {
+		if trickle && time.Since(start) > nextTrickle && time.Since(start) < dur-500*time.Millisecond {
+			if !sendT(mkT()) {
+				return "error"
+			}
+			late++
+			nextTrickle = time.Since(start) + time.Duration(300+r.IntN(400))*time.Millisecond
+		}
+		if !trickle && addMid && !added && time.Since(start) > dur/3 {
 			if !sendT(mkT()) {
 				return "error"
 			}
 			added = true
+			late++
 		}
 		t := tmpls[r.IntN(len(tmpls))]
 		counter++
@@ -309,8 +322,8 @@ func refreshSession(c *hx.Ctx, k int, r *rand.Rand, dur time.Duration) string {
 	// refresh counts
 	minR, maxR := 1<<30, 0
 	for i, t := range tmpls {
-		if added && i == len(tmpls)-1 {
-			continue // the template added mid-run joined later
+		if i >= len(tmpls)-late {
+			continue // templates announced mid-run joined later
 		}
 		n := refresh[t.tid]
 		if n < minR {
@@ -332,10 +345,13 @@ func refreshSession(c *hx.Ctx, k int, r *rand.Rand, dur time.Duration) string {
 	if maxR-minR > 1 {
 		return fail("round-incomplete", fmt.Sprintf("refresh copies per template range from %d to %d: some round did not carry every template sent so far", minR, maxR), fmt.Sprint(refresh))
 	}
-	if added {
-		if n := refresh[tmpls[len(tmpls)-1].tid]; n > maxR {
-			return fail("round-incomplete", fmt.Sprintf("the template added mid-run was retransmitted %d times, older ones at most %d", n, maxR), nil)
+	for _, t := range tmpls[len(tmpls)-late:] {
+		if n := refresh[t.tid]; n > maxR {
+			return fail("round-incomplete", fmt.Sprintf("a template announced mid-run was retransmitted %d times, the ones announced at the start at most %d", n, maxR), nil)
 		}
+	}
+	if trickle {
+		c.Add("refresh_sessions_with_a_trickle_of_new_templates", 1)
 	}
 	if minR == 0 && elapsed >= 4*time.Second {
 		return "no-refresh"
@@ -344,7 +360,7 @@ func refreshSession(c *hx.Ctx, k int, r *rand.Rand, dur time.Duration) string {
 		c.Nontrivial(hx.H64("refresh", k, len(dgs), between))
 	}
 	c.Add("refresh_sessions", 1)
-	c.Sample(4, map[string]any{"kind": "refresh", "ipv6": v6, "templates": len(tmpls), "template_added_mid_run": added, "pacing": []string{"bursts", "0-2ms gaps", "mostly idle"}[pacing],
+	c.Sample(4, map[string]any{"kind": "refresh", "ipv6": v6, "templates": len(tmpls), "templates_announced_mid_run": late, "pacing": []string{"bursts", "0-2ms gaps", "mostly idle"}[pacing],
 		"application_sends": len(sends), "datagrams_captured": len(dgs), "refresh_copies_per_template": fmt.Sprint(refresh), "app_data_between_datagrams_of_one_round": between})
 	return ""
 }
